@@ -589,6 +589,153 @@ class ZeroInit:
         return res
 
 
+def _exclusive(e1, e2):
+    g1 = {g for _, g in e1.guards}
+    g2 = {g for _, g in e2.guards}
+    for g in g1:
+        neg = g[4:] if g.startswith("not ") else "not " + g
+        if neg in g2 or ("not (%s)" % g) in g2:
+            return True
+    return False
+
+
+def clear_summary(z, prim, direction, over=(), _busy=None):
+    """parameters of a primitive that it zeroes itself before writing: name -> 'full' | 'window'"""
+    key = ("clear", prim, direction, over)
+    if key in z.acc:
+        return z.acc[key]
+    _busy = _busy or set()
+    if key in _busy:
+        return {}
+    _busy.add(key)
+    p = z.spec.prims[prim]
+    rel, qn = p["defn"]
+    fn0 = M.py_find_def(z.tree.py(rel), qn)
+    if fn0 is None:
+        raise core.AnalysisError("%s vanished from %s" % (qn, rel))
+    consts = dict(_bool_defaults(fn0))
+    consts.update({k: (v == "True") for k, v in over})
+    if p.get("flag"):
+        consts[p["flag"]] = direction
+    fn, tr = z.trace(rel, qn, consts)
+    params = set(_fn_params(fn))
+    res = {}
+    for c in tr.__dict__.get("clears", []):
+        if c["root"] in params:
+            kind = "full" if c["full"] else "window"
+            if res.get(c["root"]) != "full":
+                res[c["root"]] = kind
+    for e in tr.events:
+        for par, kind in event_clears(z, e, _busy).items():
+            if par in e.bufs and e.bufs[par][0] in params:
+                k2 = "window" if (kind == "window" or e.bufs[par][1]) else "full"
+                if res.get(e.bufs[par][0]) != "full":
+                    res[e.bufs[par][0]] = k2
+    z.acc[key] = res
+    z.acc[("cleartrace", prim, direction, over)] = (fn, tr)
+    return res
+
+
+def event_clears(z, e, _busy=None):
+    p = z.spec.prims.get(e.prim)
+    if not p or "defn" not in p or (p.get("flag") and not isinstance(e.flag, bool)):
+        return {}
+    rel, qn = p["defn"]
+    fn = M.py_find_def(z.tree.py(rel), qn)
+    over = tuple(sorted((k, v) for k, v in e.statics.items()
+                        if fn is not None and k in _bool_defaults(fn) and v in ("True", "False")))
+    return clear_summary(z, e.prim, e.flag if p.get("flag") else p.get("dir"), over, _busy)
+
+
+def rule_py_clearwindow(chk, tree):
+    """a primitive that initialises its own output must not wipe what an earlier call of the same
+    composition put into the same buffer; its cleared window is the window its kernel writes"""
+    z = ZeroInit(chk, tree)
+    # (1) wrappers of C kernels taking an element offset: cleared window == written window
+    for prim, p in sorted(z.spec.prims.items()):
+        if "defn" not in p or not p.get("flag"):
+            continue
+        for d in (True, False):
+            summ = clear_summary(z, prim, d)
+            fn, tr = z.acc[("cleartrace", prim, d, ())]
+            params = set(_fn_params(fn))
+            for e in tr.events:
+                if not e.prim.startswith("libcider:"):
+                    continue
+                cname = e.prim.split(":", 1)[1]
+                pos_w, pos_acc, names = z.cinfo[cname]
+                if "offset" not in names or "nalpha" not in names:
+                    continue
+                off = e.statics.get(str(names.index("offset")))
+                wid = e.statics.get(str(names.index("nalpha")))
+                # which C array does `offset` shift?  the written one whose index contains the symbol
+                red = chk.__dict__.get("_c_red", {}).get(cname, [])
+                shifted = set()
+                for R in red:
+                    for s_ in R.stores:
+                        if s_.root[0] == "par" and ("sym", "offset") in s_.idx.atoms(True):
+                            shifted.add(s_.root[1])
+                for k in pos_w:
+                    if names[k] not in shifted or k not in e.bufs:
+                        continue
+                    root = e.bufs[k][0]
+                    for c in tr.__dict__.get("clears", []):
+                        if c["root"] != root or c["pos"] > e.order:
+                            continue
+                        inst = "%s[%s=%s]: clear of %s before libcider.%s" % (prim, p["flag"], d, root, cname)
+                        if c["full"] or c["lo"] is None:
+                            # harmful only when a composition calls the wrapper twice on one buffer: decided in (2)
+                            chk.ok("py-clearwindow", inst + " (whole-array clear; repeated use checked per composition)",
+                                   nontrivial=False)
+                            if c["full"] and off not in (None, "0"):
+                                chk.note("py-clearwindow", "%s:%s" % (p["defn"][0], p["defn"][1]),
+                                         "`%s` clears the whole of `%s` while libcider.%s writes only columns "
+                                         "[%s, %s + %s)" % (ast.unparse(c["node"]), root, cname, off, off, wid))
+                            continue
+                        lo = M.canon_py(c["lo"], {})
+                        width = M.canon_py(ast.BinOp(left=c["hi"], op=ast.Sub(), right=c["lo"]), {})
+                        if lo != off or width != wid:
+                            chk.violation("py-clearwindow", p["defn"][0], p["defn"][1], ast.unparse(c["node"]),
+                                          c["node"].lineno,
+                                          "the wrapper clears columns [%s, %s + %s) of `%s` but libcider.%s writes "
+                                          "columns [%s, %s + %s)" % (lo, lo, width, root, cname, off, off, wid),
+                                          instance=inst)
+                        else:
+                            chk.ok("py-clearwindow", inst, detail={"window": "[%s, %s + %s)" % (lo, lo, width)})
+    # (2) compositions: a whole-array clear hidden in a later primitive after an earlier write
+    todo = []
+    for label, rel, fq, bq, spec in PY_PAIRS:
+        for qn, consts in ((fq, spec.consts_f), (bq, spec.consts_b)):
+            k = (rel, qn, tuple(sorted(consts.items())))
+            if k not in todo:
+                todo.append(k)
+    for rel, qn, consts in todo:
+        fn, tr = z.trace(rel, qn, dict(consts))
+        tag = qn + ("[%s]" % ",".join("%s=%s" % kv for kv in consts) if consts else "")
+        for e in tr.events:
+            for par, kind in event_clears(z, e).items():
+                if par not in e.bufs:
+                    continue
+                root = e.bufs[par][0]
+                earlier = []
+                for o in tr.events:
+                    if o.order >= e.order or _exclusive(o, e):
+                        continue
+                    _, w, io = M._dir_roles(o)
+                    if root in w or root in io:
+                        earlier.append(o)
+                if not earlier:
+                    continue
+                inst = "%s: %s cleared by %s(%s) after %d earlier write(s)" % (tag, root, e.prim, par, len(earlier))
+                if kind == "full" and not e.bufs[par][1]:
+                    chk.violation("py-clearwindow", rel, qn, e.text, e.line,
+                                  "%s zeroes the whole of its `%s` argument before writing, but `%s` already holds the "
+                                  "result of `%s` (line %d) in this composition: the earlier contribution is wiped" % (
+                                      e.prim, par, root, earlier[0].text[:80], earlier[0].line), instance=inst)
+                else:
+                    chk.ok("py-clearwindow", inst + " (window clear)")
+
+
 def rule_py_zeroinit(chk, tree):
     z = ZeroInit(chk, tree)
     todo = []
@@ -898,6 +1045,10 @@ def _analyse_own(chk):
     chk.guard(rule_py_dot, tree)
     chk.rule("py-zeroinit", "buffers passed to accumulate-only primitives are fresh zeros or zeroed before the call")
     chk.guard(rule_py_zeroinit, tree)
+    chk.rule("py-clearwindow", "a self-initialising primitive clears only the window it writes; no whole-array clear "
+                               "after an earlier write in a composition")
+    chk.guard(rule_py_clearwindow, tree)
+    chk.floor("py-clearwindow", 2, "convert_rad2orb_ window + the repeated onsite calls of project_grid2orb")
     chk.guard(rule_py_select, tree)
     chk.guard(rule_py_branch, tree)
     chk.floor("py-zeroinit", 8, "accumulate-only outputs in the traced compositions (6 local buffers, rest caller-provided)")
@@ -1063,6 +1214,11 @@ def mutants(tree):
         Mutant("scratch table of SDMXcontract_rsq0 read transposed", S,
                "ectr[k * BLKSIZE + i] += eprim * conv_coeff[k * nprim + j];",
                "ectr[k * BLKSIZE + i] += eprim * conv_coeff[j * nctr + k];", expect="c-scratch-layout"),
+        # ---- round 7: self-initialising wrappers clear only what they write
+        Mutant("convert_rad2orb_ clears the whole orbital array", LC,
+               "p_uq[:, offset : offset + nalpha] = 0.0", "p_uq[:] = 0.0", expect="py-clearwindow"),
+        Mutant("convert_rad2orb_ clears the first nalpha columns instead of its window", LC,
+               "p_uq[:, offset : offset + nalpha] = 0.0", "p_uq[:, 0:nalpha] = 0.0", expect="py-clearwindow"),
         # ---- Python compositions
         Mutant("swap call order in spline2conv", LI,
                "            self._orb2spline_(\n                self.l1atco,\n                f_arlpq,\n                f1_uq,\n"
